@@ -220,7 +220,7 @@ def gen_root(rng, i):
     d = rng.randint(4, 12)
     r = rng.randint(1, d - 3)
     neg = rng.random() < 0.5
-    if neg or rng.random() < 0.6:
+    if rng.random() < (0.75 if neg else 0.6):
         n = rng.randint(r + 3, d)                      # padding_start, |r| + 2 < n <= d
         ps = n
     else:
@@ -438,15 +438,21 @@ def _fail_infra(ctx, case, obs, stats=None):
     raise kit.InfraError(f"case {case['id']}: {obs['exception']}")
 
 
-def eval_pd(ctx, case, obs, rep):
+def _cmp(ctx, op, ok, case=None, impl=None, model=None, note=""):
+    """count an agreement, or record the disagreement (which counts itself)"""
+    if ok:
+        ctx.corr(op, True)
+    else:
+        ctx.disagree(op, case, impl, model, note)
+
+
+def eval_pd(ctx, case, obs, rep, stats):
     if "exception" in obs:
         return _fail_infra(ctx, case, obs)
     for (r, d, pdv, sc), m in zip(obs["grid"], rep):
         ctx.evaluated()
         ok = m.get("precond_dim") == pdv and m.get("should_compress") == sc
-        ctx.corr("precond_dim/should_compress", ok)
-        if not ok:
-            ctx.disagree("precond_dim/should_compress", {"rank": r, "dim": d}, [pdv, sc], m)
+        _cmp(ctx, "precond_dim/should_compress [EXACT]", ok, {"rank": r, "dim": d}, [pdv, sc], m)
         ctx.cov["search_evaluations"] += 1
         bad = []
         if (pdv != d) != sc:
@@ -456,6 +462,7 @@ def eval_pd(ctx, case, obs, rep):
         if sc != (r != 0 and abs(r) + 2 < d):
             bad.append(f"_should_compress({r},{d})={sc}: packing needs |rank| + 2 < dim (slot disjointness)")
         if bad:
+            stats["violations:precond_dim"] += 1
             ctx.violation("; ".join(bad), {"kind": "pd1", "rank": r, "dim": d})
         if sc:
             ctx.nontrivial(("pd", r, d))
@@ -482,9 +489,7 @@ def eval_pack(ctx, case, obs, reps, stats):
     rp, rlp, ru, rlu = reps
     if "assertion" in obs or not pdim(r, d):
         ok = ("assertion" in obs) and rp.get("err") == "inadmissible" and ru.get("err") == "inadmissible" and not pdim(r, d)
-        ctx.corr("pack rejects r + 2 >= d", ok)
-        if not ok:
-            ctx.disagree("pack rejects r + 2 >= d", case, obs.get("assertion", "accepted"), [rp, ru])
+        _cmp(ctx, "pack rejects r + 2 >= d", ok, case, obs.get("assertion", "accepted"), [rp, ru])
         return
     ctx.nontrivial(("pack", d, case["rank"], case["cls"], case["seed"]))
     checks = [("_fd_low_rank_pack", obs["P"], rp.get("P")),
@@ -493,9 +498,7 @@ def eval_pack(ctx, case, obs, reps, stats):
               ("_low_rank_unpack", obs["L"], [rlu.get("eigvecs"), rlu.get("inv"), [rlu.get("const")], rlu.get("has_zeros")])]
     for name, impl, model in checks:
         ok = impl == model
-        ctx.corr(name + " [EXACT]", ok)
-        if not ok:
-            ctx.disagree(name + " [EXACT]", case, impl, model)
+        _cmp(ctx, name + " [EXACT]", ok, case, impl, model)
     # ---- direct oracle: the two round trips, on the implementation alone
     ctx.cov["search_evaluations"] += 1
     bad = []
@@ -547,21 +550,15 @@ def eval_apply(ctx, case, obs, rep, stats):
         # the public path chose the layout: must be the one the case was generated for
         want = [[d, abs(case["rank"]) + 2 if pdim(case["rank"], d) else d] for d, k in zip(shape, case["kinds"]) if k != "roll"]
         lay_ok = obs["pshapes"] == want and obs["spd"] == [k != "roll" for k in case["kinds"]]
-        ctx.corr("shapes_for_preconditioners uses precond_dim [EXACT]", lay_ok)
-        if not lay_ok:
-            ctx.disagree("shapes_for_preconditioners uses precond_dim [EXACT]", case, [obs["pshapes"], obs["spd"]], want)
+        _cmp(ctx, "shapes_for_preconditioners uses precond_dim [EXACT]", lay_ok, case, [obs["pshapes"], obs["spd"]], want)
     exp, bound = apply_expected(g, axes)
     tol = 1e-12 * bound
     if case["ty"] == "rat":
         impl_r = rats(out) if shape_ok else None
         ok = impl_r == rep["packed"]
-        ctx.corr("_precondition_block vs Rat model [EXACT-DYADIC]", ok)
-        if not ok:
-            ctx.disagree("_precondition_block vs Rat model [EXACT-DYADIC]", case, impl_r and impl_r[:40], rep["packed"][:40])
+        _cmp(ctx, "_precondition_block vs Rat model [EXACT-DYADIC]", ok, case, impl_r and impl_r[:40], rep["packed"][:40])
         inst = rep["packed"] == rep["denoted"]
-        ctx.corr("Rat instance: packed loop == denoted dense loop", inst)
-        if not inst:
-            ctx.disagree("Rat instance: packed loop == denoted dense loop", case, None, [rep["packed"][:20], rep["denoted"][:20]])
+        _cmp(ctx, "Rat instance: packed loop == denoted dense loop", inst, case, None, [rep["packed"][:20], rep["denoted"][:20]])
         good = shape_ok and np.array_equal(out, exp)
         err = float(np.max(np.abs(out - exp))) if shape_ok and out.size else 0.0
     else:
@@ -569,13 +566,9 @@ def eval_apply(ctx, case, obs, rep, stats):
         md = unhx(rep["denoted"], shape)
         e1 = float(np.max(np.abs(out - mp))) if shape_ok and out.size else float("inf")
         ok = shape_ok and e1 <= tol
-        ctx.corr("_precondition_block vs Float model [TOL 1e-12 x bound]", ok)
-        if not ok:
-            ctx.disagree("_precondition_block vs Float model [TOL 1e-12 x bound]", case, hx(out)[:20], rep["packed"][:20], f"max abs diff {e1} > {tol}")
+        _cmp(ctx, "_precondition_block vs Float model [TOL 1e-12 x bound]", ok, case, hx(out)[:20], rep["packed"][:20], f"max abs diff {e1} > {tol}")
         e2 = float(np.max(np.abs(mp - md))) if mp.size else 0.0
-        ctx.corr("Float model: packed loop ~ denoted dense loop", e2 <= tol)
-        if e2 > tol:
-            ctx.disagree("Float model: packed loop ~ denoted dense loop", case, None, None, f"{e2} > {tol}")
+        _cmp(ctx, "Float model: packed loop ~ denoted dense loop", e2 <= tol, case, None, None, f"{e2} > {tol}")
         err = float(np.max(np.abs(out - exp))) if shape_ok and out.size else (0.0 if shape_ok else float("inf"))
         good = shape_ok and err <= tol
     ctx.cov["search_evaluations"] += 1
@@ -651,10 +644,8 @@ def eval_root(ctx, case, obs, rep1, rep2, tol, stats):
     rest_m[:r, -2] = 0
     rest_m[0, -1] = 0
     ok = ok and not rest_i.any() and not rest_m.any()
-    ctx.corr("_low_rank_root vs Float model [TOL 1e-9 x kappa]", ok)
-    if not ok:
-        ctx.disagree("_low_rank_root vs Float model [TOL 1e-9 x kappa]", case, {"e": list(e), "c": c}, {"e": list(em), "c": float(cm)},
-                     f"errors {errs}, allowed dense {tolD}, const {tolc}")
+    _cmp(ctx, "_low_rank_root vs Float model [TOL 1e-9 x kappa]", ok, case, {"e": list(map(float, e)), "c": c}, {"e": list(map(float, em)), "c": float(cm)},
+         f"errors {errs}, allowed dense {tolD}, const {tolc}")
     # ---- direct oracle
     ctx.cov["search_evaluations"] += 1
     bad = []
@@ -725,7 +716,7 @@ def execute(ctx, cases, stats, tol):
         if "exception" in o:
             _fail_infra(ctx, c, o, stats)
         elif c["kind"] == "pd":
-            eval_pd(ctx, c, o, rs)
+            eval_pd(ctx, c, o, rs, stats)
         elif c["kind"] == "pack":
             eval_pack(ctx, c, o, rs, stats)
         elif c["kind"] == "apply":
@@ -768,9 +759,7 @@ def model_selftest(ctx):
             {"packed": ["5", "6", "9", "12"], "denoted": ["5", "6", "9", "12"]},
             {"precond_dim": 4, "should_compress": False}, {"precond_dim": 4, "should_compress": True}]
     ok = r == want
-    ctx.corr("model selftest (hand-computed layout and application)", ok)
-    if not ok:
-        ctx.disagree("model selftest", None, want, r)
+    _cmp(ctx, "model selftest (hand-computed layout and application)", ok, None, want, r)
 
 
 def run(ctx):
@@ -793,7 +782,7 @@ def run(ctx):
                        "(d 3..14, all ranks incl. inadmissible, both signs, recognisable integers / generic / special doubles), application "
                        "cases (gradient rank 1..3, dims 1..12, |compression_rank| 1..4 both signs, packed / flagged / dense / skipped axes, "
                        "direct _precondition_block and public preconditioned_grad, eager and jit, dyadic and generic values), root cases "
-                       "(d 4..12, |rank| 1..d-3 both signs, padding_start None / d / < d with and without garbage in the padded region, "
+                       "(d 4..12, |rank| 1..d-3 both signs, padding_start None (both signs, D21) / d / < d with and without garbage in the padded region, "
                        "p in 1..8, ridge 0..1e-3, relative and absolute epsilon, spectra geometric / clustered / rank-deficient / uniform with "
                        "a gap at the cut). Non-trivial: admissible pack case; application with at least one unflagged packed axis; every "
                        "root case; should_compress grid points; distinct by parameters and seed")
@@ -802,7 +791,6 @@ def run(ctx):
         "EXACT: bit patterns for pack/unpack; EXACT-DYADIC: application on small integers x powers of two against the Rat model",
         "TOL: application 1e-12 x (max|g| x product of 1-norm bounds of the applied operators); root 1e-9 x f_max x (1 + lambda_max/gap at the cut + lambda_max/lambda_min of the regularized statistics)",
         "external kernels: numpy eigh (specification re-checked at run time, residual <= 1e-10), the real power_iteration for max_ev, libm pow",
-        "negative compression_rank is always called with padding_start (as the optimizer does); `d - None` raises for padding_start=None",
         "statistics have a spectral gap at the cut (relative gap >= ~1e-3); without it the retained subspace is not numerically defined",
     ]
     pairs = execute(ctx, cases, stats, tol)
